@@ -55,7 +55,22 @@ PARSED = [
     "@x{k1, a = {va}, c = {vc}, b = {vb}}",
     '@y{k2, title = "T", A = {x}}',
     "@z{k3}",
+    # an entry that went through the shipped entry middlewares (what they leave in its metadata is there): keys normalised,
+    # month converted, fields sorted by a custom order and then alphabetically
+    "@w{k4, TYPE = {vt}, c = {vc}, month = jan, b = {vb}}",
+    # ... and one whose last pass was the custom order
+    "@v{k5, c = {vc}, b = {vb}, d = {vd}}",
 ]
+
+
+def _processing_stack(n):
+    from bibtexparser import middlewares as mw
+
+    if n == 4:
+        return [mw.NormalizeFieldKeys(), mw.MonthIntMiddleware(), mw.SortFieldsCustomMiddleware(order=("c", "b")), mw.SortFieldsAlphabeticallyMiddleware()]
+    if n == 5:
+        return [mw.SortFieldsAlphabeticallyMiddleware(), mw.SortFieldsCustomMiddleware(order=("d", "c"))]
+    return []
 
 
 def bounds(tier):
@@ -75,7 +90,7 @@ class SetupFailed(Exception):
     earlier entries have leaked into a later parse (entries are not independent mappings)."""
 
 
-_EXPECTED_INITIAL = {1: [("a", "va"), ("c", "vc"), ("b", "vb")], 2: [("title", "T"), ("A", "x")], 3: []}
+_EXPECTED_INITIAL = {1: [("a", "va"), ("c", "vc"), ("b", "vb")], 2: [("title", "T"), ("A", "x")], 3: [], 4: [("b", "vb"), ("c", "vc"), ("month", 1), ("type", "vt")], 5: [("d", "vd"), ("c", "vc"), ("b", "vb")]}
 
 
 def fresh(init):
@@ -83,7 +98,7 @@ def fresh(init):
         e = Entry("article", "k", [])
     else:
         try:
-            e = bibtexparser.parse_string(PARSED[init - 1]).entries[0]
+            e = bibtexparser.parse_string(PARSED[init - 1], append_middleware=_processing_stack(init)).entries[0]
             got = [(f.key, f.value) for f in e.fields]
         except Exception as ex:
             raise SetupFailed(f"parse_string({PARSED[init - 1]!r}) raised {type(ex).__name__}: {ex}")
@@ -429,13 +444,17 @@ def equal_values(acc):
 
 
 def wide_entries(acc, tier):
-    """Entries of middling width (1 .. 13 fields, thorough .. 40): every single operation at every position of every
+    """Entries of middling width (1 .. 20 fields, thorough .. 40, and around 32 .. 256, thorough .. 1024): every single operation at every position of every
     width, then a second one at every position - replacing keeps the position whichever field it is (first, middle,
     last), removal closes the gap, a default handed to pop is only a default."""
-    top = 13 if tier == "quick" else 40
-    for n in range(1, top + 1):
+    top = 20 if tier == "quick" else 40
+    # ... and the widths around the powers of two a lookup structure would switch at, at the positions around those
+    # thresholds and at both ends
+    ladder = [31, 32, 33, 34, 63, 64, 65, 66, 127, 128, 129, 130, 255, 256, 257, 258] + ([1023, 1024, 1025, 1026] if tier == "thorough" else [])
+    near = sorted({0, 1, 2} | {q + dlt for q in (8, 16, 32, 64, 128, 256, 1024) for dlt in (-2, -1, 0, 1, 2)})
+    for n in list(range(1, top + 1)) + [w for w in ladder if w > top]:
         keys = [f"k{i:02d}" for i in range(n)]
-        for p in range(n):
+        for p in range(n) if n <= top else sorted({x for x in near if x < n} | {n - 2, n - 1}):
             k = keys[p]
             firsts = [("setitem", k, "new"), ("set_field", k, "new"), ("pop", k), ("popd", k), ("popself", k), ("popself", k, keys[(p + 1) % n]), ("del", k), ("setitem", "fresh", "f")]
             for op1 in firsts:
